@@ -122,6 +122,42 @@ def run_pairing(ctx):
                     ctx.violation("pairing", key, "%s changes capacity.pipelines_running without the matching change of assigned_pipelines on the same path" % name, site=s.get("sp"))
 
 
+def run_migration_target(ctx):
+    """(c) a migration moves a pipeline to ANOTHER worker: wherever a placement target is computed and handed to
+    migrate_pipeline (failover, drain), the candidate filter must exclude the source worker (`w.id != source`); with source ==
+    target, migrate_pipeline pushes the pipeline onto the worker and its own source clean-up then removes it again — the
+    placement says Running on a worker whose assigned_pipelines no longer lists it."""
+    from vpr.prov import Slicer
+    F = ctx.facts()
+    PLACE = "varpulis_cluster::PlacementStrategy::place"
+    n = 0
+    for c in F.calls:
+        if c["callee"] != PLACE:
+            continue
+        b = ctx.body(c["f"])
+        if not any("Coordinator::migrate_pipeline" in (t["inst"] or t["callee"]) for _, t in b.calls()):
+            continue  # a deployment, not a migration: there is no source worker
+        n += 1
+        t = b.term(c["bb"])
+        fn = c["f"].split("::{closure")[0].rsplit("::", 1)[1]
+        o = Slicer(b).origins([t["args"][2] if len(t["args"]) > 2 else t["args"][-1]])
+        excl = False
+        for cl in o.closures:
+            cb = ctx.body(cl)
+            if cb is None:
+                continue
+            for _, tt in cb.calls():
+                if (tt["inst"] or tt["callee"]).endswith(("PartialEq::ne", "::ne")) and any(".id" in cb.desc(a) or cb.desc(a).endswith("id") for a in tt["args"]):
+                    excl = True
+        key = "migration-target:%s" % fn
+        if excl:
+            ctx.ok("pairing", key, "candidates exclude the source worker", site=t["sp"])
+        else:
+            ctx.violation("pairing", key, "%s picks a migration target among workers that still include the source worker (no `w.id != source` in the candidate filter): if the source is available again (a late heartbeat between sweep and failover) the pipeline is 'migrated' onto itself and the source clean-up removes it from assigned_pipelines while the placement stays Running" % fn, site=t["sp"])
+    ctx.floor("pairing", "placement sites that feed migrate_pipeline", n, 2)
+
+
 def run(ctx):
     ctx.guard("revalidate", lambda: run_revalidate(ctx))
     ctx.guard("pairing", lambda: run_pairing(ctx))
+    ctx.guard("pairing", lambda: run_migration_target(ctx))
